@@ -109,7 +109,7 @@ mod verif_c18 {
     /// symmetry and row convexity. Axes <= 256 (64-bit products of the implementation vs i128 spec).
     //@harness prop=C18 kind=lemma tier=quick class=P bound="ellipse axes <= 64 (EllipseContains contract domain), probe within +-100 of the shape" timeout=900 fns=src/primitives/ellipse/mod.rs::Ellipse::contains;src/primitives/ellipse/mod.rs::EllipseContains::contains
     #[kani::proof]
-    #[kani::stub_verified(crate::primitives::ellipse::EllipseContains::contains)]
+    #[kani::stub(crate::primitives::ellipse::EllipseContains::contains, crate::primitives::ellipse::verif_ell::contains_by_contract)]
     fn c18_ellipse_vs_ideal() {
         let s: Size = kani::any();
         kani::assume(s.width <= 64 && s.height <= 64 && s.width != s.height);
@@ -124,7 +124,7 @@ mod verif_c18 {
     }
     //@harness prop=C18 kind=lemma tier=quick class=P bound="ellipse axes <= 64 (EllipseContains contract domain)" fns=src/primitives/ellipse/mod.rs::Ellipse::contains
     #[kani::proof]
-    #[kani::stub_verified(crate::primitives::ellipse::EllipseContains::contains)]
+    #[kani::stub(crate::primitives::ellipse::EllipseContains::contains, crate::primitives::ellipse::verif_ell::contains_by_contract)]
     fn c18_ellipse_symmetry_convexity() {
         let s: Size = kani::any();
         kani::assume(s.width >= 1 && s.height >= 1 && s.width <= 64 && s.height <= 64);
@@ -164,10 +164,10 @@ mod verif_c18 {
     /// the left and right corner radii) mirrors contains(); each corner is governed by its own radius.
     /// Decides left/right mix-ups between the corners. Sizes and radii are built from 3-bit values so
     /// that the 64-bit products of the corner ellipses stay small for the SAT solver.
-    //@harness prop=C18 kind=lemma tier=quick class=P bound="rectangle <= 7x7, radii <= 7 that fit, probe within +-12 of the shape" timeout=900 fns=src/primitives/rounded_rectangle/mod.rs::RoundedRectangleContains::contains;src/primitives/rounded_rectangle/mod.rs::RoundedRectangleContains::new
+    //@harness prop=C18 kind=lemma tier=quick class=P bound="rectangle <= 7x7, radii <= 7 that fit, probe within +-12 of the shape" timeout=900 kani="--no-assertion-reach-checks" fns=src/primitives/rounded_rectangle/mod.rs::RoundedRectangleContains::contains;src/primitives/rounded_rectangle/mod.rs::RoundedRectangleContains::new
     #[kani::proof]
-    #[kani::stub_verified(crate::primitives::rounded_rectangle::CornerRadii::confine)]
-    #[kani::stub_verified(crate::primitives::ellipse::EllipseContains::contains)]
+    #[kani::stub(crate::primitives::rounded_rectangle::CornerRadii::confine, crate::primitives::rounded_rectangle::corner_radii::verif_cr::confine_by_contract)]
+    #[kani::stub(crate::primitives::ellipse::EllipseContains::contains, crate::primitives::ellipse::verif_ell::contains_by_contract)]
     fn c18_rounded_rectangle_mirror_symmetry() {
         let nib = || (kani::any::<u8>() & 7) as u32;
         let s = Size::new(nib(), nib());
@@ -188,7 +188,7 @@ mod verif_c18 {
     /// confine_radii(): radii that already fit are unchanged (idempotence on fitting radii)
     //@harness prop=C18 kind=lemma tier=quick class=P fns=src/primitives/rounded_rectangle/mod.rs::RoundedRectangle::confine_radii
     #[kani::proof]
-    #[kani::stub_verified(crate::primitives::rounded_rectangle::CornerRadii::confine)]
+    #[kani::stub(crate::primitives::rounded_rectangle::CornerRadii::confine, crate::primitives::rounded_rectangle::corner_radii::verif_cr::confine_by_contract)]
     fn c18_confine_keeps_fitting_radii() {
         let r = any_rect(1024);
         let c: CornerRadii = kani::any();
